@@ -43,7 +43,7 @@ Proof.
     destruct (cache_get c (sigfield_key i)) as [v|] eqn:E.
     + destruct (Z.testbit flag (i - 1)) eqn:B.
       * rewrite IH by exact Ht. destruct v as [[]|]; reflexivity.
-      * specialize (Hi eq_refl). destruct v as [[b| | | | |]|]; try contradiction.
+      * specialize (Hi eq_refl). destruct v as [[b| | | | | |]|]; try contradiction.
         rewrite IH by exact Ht. rewrite app_assoc. reflexivity.
     + rewrite IH by exact Ht. reflexivity.
 Qed.
@@ -65,7 +65,7 @@ Proof.
   destruct (Z.testbit flag (i - 1)) eqn:B.
   - destruct (cache_get c1 (sigfield_key i)), (cache_get c2 (sigfield_key i)); apply IH; exact Ht.
   - rewrite <- (H i (or_introl eq_refl) B).
-    destruct (cache_get c1 (sigfield_key i)) as [[[b| | | | |]|]|]; try reflexivity; apply IH; exact Ht.
+    destruct (cache_get c1 (sigfield_key i)) as [[[b| | | | | |]|]|]; try reflexivity; apply IH; exact Ht.
 Qed.
 
 Section Sig.
@@ -84,7 +84,7 @@ Proof.
   unfold act. cbn [bind interp step].
   destruct (cache_get (st_cache st) (sigfield_key i)) as [v|]; [|apply IH].
   destruct (Z.testbit flag (i - 1)); [apply IH|].
-  destruct v as [[b| | | | |]|]; try reflexivity. apply IH.
+  destruct v as [[b| | | | | |]|]; try reflexivity. apply IH.
 Qed.
 
 Theorem get_message_core_spec flag fr st :
